@@ -1,5 +1,6 @@
 """LEX — crates/oq3_lexer/src/{cursor.rs,lib.rs}  (C14, C01-lexer, C11 flags, C15 classification)"""
 from vlib.unit import Unit
+from units import lex_stageb
 
 L = 'crates/oq3_lexer/src/lib.rs'
 K = 'crates/oq3_lexer/src/cursor.rs'
@@ -39,6 +40,7 @@ def scanner(name, extra_req='', extra_ens='', **kw):
 
 
 def build():
+    SB = lex_stageb.entries()
     U = Unit('LEX', props=['C14', 'C01', 'C11', 'C15', 'C02', 'C12'])
     U.tag_loops = True     # loop invariants state property-relevant facts about abstractions: a failing one is reported
     f = U.file(L)
@@ -107,6 +109,11 @@ ensures
         && r.len == utf8_len(old(self).rest().take(eaten(*old(self), *final(self)))) && r.len >= 1,                       //@C14,C01,C02:progress-and-length
     // a literal's suffix offset never exceeds its length
     r.kind is Literal ==> r.kind->Literal_suffix_start <= r.len,                                                            //@C14:suffix-start
+    // a token that starts with a digit is the numeric literal of the OpenQASM 3 syntax: class, base,
+    // flags, and the literal proper (before any suffix) extends exactly as far as the syntax says
+    (old(self).rest().len() > 0 && is_dec(old(self).rest()[0])) ==> r.kind is Literal
+        && r.kind->Literal_kind == num_spec(old(self).rest()[0], old(self).rest().skip(1)).0
+        && r.kind->Literal_suffix_start == utf8_len(old(self).rest().take(1 + num_spec(old(self).rest()[0], old(self).rest().skip(1)).1)),   //@C15,C11:numeric-literal-by-the-syntax
 ''')),
         scanner('line_comment', " old(self).prevc() == '/', peek(*old(self)) == '/',", ' k == TokenKind::LineComment,', ret='k'),
         scanner('block_comment', " old(self).prevc() == '/', peek(*old(self)) == '*',", ' k is BlockComment,', ret='k', loops={1: '''invariant_except_break depth >= 1,
@@ -122,19 +129,17 @@ decreases self.rest().len(),'''}),
         scanner('ident_or_unknown_prefix', " old(self).prevc() == '_' || xid_start(old(self).prevc()),", ' k == TokenKind::Ident || k == TokenKind::InvalidIdent,', ret='k'),
         scanner('hardware_ident', '', ' k == TokenKind::Dollar || k == TokenKind::HardwareIdent || k == TokenKind::InvalidIdent,', ret='k'),
         scanner('fake_ident_or_unknown_prefix', '', ' k == TokenKind::InvalidIdent,', ret='k'),
-        scanner('float_with_no_leading_digit', " '0' <= peek(*old(self)) <= '9',"),
-        scanner('number', " '0' <= old(self).prevc() <= '9', first_digit == old(self).prevc(),"),
+        scanner('float_with_no_leading_digit', *SB['float_with_no_leading_digit'][:2], **SB['float_with_no_leading_digit'][2]),
+        scanner('number', *SB['number'][:2], **SB['number'][2]),
         scanner('double_quoted_string', " old(self).prevc() == '\"',", loops={1: '''invariant
     advanced(*old(self), *self), fits(*old(self)), 0 <= count_newlines <= eaten(*old(self), *self),
 decreases self.rest().len(),'''}),
         scanner('single_quoted_string', " old(self).prevc() == '\\'',", loops={1: '''invariant
     advanced(*old(self), *self), fits(*old(self)), 0 <= count_newlines <= eaten(*old(self), *self),
 decreases self.rest().len(),'''}),
-        scanner('eat_decimal_digits', loops={1: '''invariant advanced(*old(self), *self),
-decreases self.rest().len(),'''}),
-        scanner('eat_hexadecimal_digits', loops={1: '''invariant advanced(*old(self), *self),
-decreases self.rest().len(),'''}),
-        scanner('eat_float_exponent', " old(self).prevc() == 'e' || old(self).prevc() == 'E',"),
+        scanner('eat_decimal_digits', *SB['eat_decimal_digits'][:2], **SB['eat_decimal_digits'][2]),
+        scanner('eat_hexadecimal_digits', *SB['eat_hexadecimal_digits'][:2], **SB['eat_hexadecimal_digits'][2]),
+        scanner('eat_float_exponent', *SB['eat_float_exponent'][:2], **SB['eat_float_exponent'][2]),
         scanner('eat_literal_suffix'),
         ('has_timing_or_imaginary_suffix', dict(props=ALLP, rewrites=[('D7', D7_OLD, D7_NEW)],
                                                 spec='ensures *final(self) == *old(self),')),
